@@ -25,34 +25,56 @@ fn cow_bytes<'a>(c: Cow<'a, str>) -> &'a [u8] {
 }
 
 /// An element name: interned (reader side) or literal (user constructed).
+///
+/// Deliberately a *flat struct of integers and a raw pointer* and not an enum: events live
+/// inside enum payloads (`Event`, `Result`), the code under test reads them through references
+/// into those payloads, and CBMC can only constant-fold such a read when the field it lands on
+/// has exactly the type that is read.  The discriminant of a niche-optimised enum is read with
+/// a cast type and always comes back symbolic (DESIGN.md, cost rules).
 #[derive(Clone, Copy)]
-pub(crate) enum NameRef<'a> {
-    Id(u8),
-    Lit(&'a [u8]),
+pub(crate) struct NameRef<'a> {
+    id: u8,
+    is_lit: u8,
+    lit: *const u8,
+    lit_len: usize,
+    _p: std::marker::PhantomData<&'a [u8]>,
 }
 
+unsafe impl Send for NameRef<'_> {}
+unsafe impl Sync for NameRef<'_> {}
+
+#[allow(non_snake_case)]
 impl<'a> NameRef<'a> {
+    pub(crate) const fn Id(id: u8) -> Self {
+        Self { id, is_lit: 0, lit: std::ptr::null(), lit_len: 0, _p: std::marker::PhantomData }
+    }
+    pub(crate) const fn Lit(c: &'a [u8]) -> Self {
+        Self { id: 0, is_lit: 1, lit: c.as_ptr(), lit_len: c.len(), _p: std::marker::PhantomData }
+    }
     #[inline]
     fn bytes(&self) -> &'a [u8] {
-        match self {
-            NameRef::Id(i) => tape::name_bytes(*i),
-            NameRef::Lit(c) => c,
+        if self.is_lit == 0 {
+            tape::name_bytes(self.id)
+        } else {
+            unsafe { std::slice::from_raw_parts(self.lit, self.lit_len) }
         }
     }
     fn owned(self) -> NameRef<'static> {
-        match self {
-            NameRef::Id(i) => NameRef::Id(i),
-            NameRef::Lit(c) => NameRef::Lit(leak(c.to_vec())),
+        if self.is_lit == 0 {
+            NameRef::Id(self.id)
+        } else {
+            NameRef::Lit(leak(self.bytes().to_vec()))
         }
     }
 }
 
 impl PartialEq for NameRef<'_> {
     fn eq(&self, other: &Self) -> bool {
-        match (self, other) {
-            // table entries are pairwise distinct
-            (NameRef::Id(a), NameRef::Id(b)) => a == b,
-            _ => self.bytes() == other.bytes(),
+        // table entries are pairwise distinct
+        if self.is_lit == 0 && other.is_lit == 0 {
+            self.id == other.id
+        } else {
+            self.bytes() == other.bytes()
         }
     }
 }
